@@ -20,6 +20,14 @@ class C03(RProp):
             res["model_cases"] = res.get("model_cases", []) + [([103] + enc_cfg(cfg), o)]
             if not adm:
                 res["nontrivial"] = None
+            exc_type = None
+            if oc == "raise":
+                exc_type = res.get("raise_type")
+            if adm and oc == "raise" and exc_type not in (None, "JobError", "TimeoutError") and res["status"] != "specfail":
+                res["status"] = "specfail"
+                res["detail"] = {"what": "admissible tree, but run() does not finish properly: it raises %s, which is neither "
+                                         "the exception of a critical job nor a TimeoutError" % exc_type,
+                                 "model_verdict_on_history": res["detail"]}
             if adm and oc in ("deadlock", "livelock") and res["status"] != "specfail":
                 res["status"] = "specfail"
                 res["detail"] = {"what": "admissible tree, but run() does not terminate: %s detected under the "
